@@ -16,6 +16,7 @@ mod cmd_fmt;
 mod cmd_formats;
 mod cmd_partial;
 mod cmd_pset;
+mod cmd_batched;
 
 /// Command families.  To add one: create src/cmd_xxx.rs with
 /// `pub fn dispatch(cmd: &str, v: &J) -> Option<Result<J, String>>`, add `mod cmd_xxx;` above
@@ -31,6 +32,7 @@ const FAMILIES: &[fn(&str, &J) -> Option<Result<J, String>>] = &[
     cmd_formats::dispatch,
     cmd_partial::dispatch,
     cmd_pset::dispatch,
+    cmd_batched::dispatch,
 ];
 
 fn dispatch(cmd: &str, v: &J) -> Result<J, String> {
